@@ -203,7 +203,7 @@ end
 
 /-- parse a complete expression -/
 def parse (ts : List Tok) : Option Expr :=
-  match parseExpr (4 * ts.length + 8) 0 ts with
+  match parseExpr (8 * ts.length + 8) 0 ts with
   | some (e, []) => some e
   | _ => none
 
